@@ -21,6 +21,22 @@ type State struct {
 	events []string
 	epoch  string // non-empty after a havoc-all: lazily materialised content gets fresh names
 	viewImg map[string]*Term
+	guards  []*loopGuard
+}
+
+// loopGuard: the objects a loop with an explicit modifies clause may write.
+type loopGuard struct {
+	maxID int
+	ok    map[*Obj]bool
+	li    *loopInfo
+}
+
+func (st *State) checkWrite(o *Obj) {
+	for _, g := range st.guards {
+		if o.ID <= g.maxID && !g.ok[o] {
+			panic(abortf("loop body writes %s, which is outside the loop's modifies clause", o))
+		}
+	}
 }
 
 type deferRec struct {
@@ -38,6 +54,7 @@ func (st *State) clone() *State {
 		trace:  st.trace[:len(st.trace):len(st.trace)],
 		defers: st.defers[:len(st.defers):len(st.defers)],
 		epoch:  st.epoch,
+		guards: st.guards,
 	}
 	for k, v := range st.vals {
 		n.vals[k] = v
@@ -243,6 +260,12 @@ func (ex *Exec) newVar(name string, s Sort, t types.Type) *Term {
 	if t != nil && s == SInt {
 		if lo, hi, ok := intRange(t); ok {
 			ex.varFacts[name] = And(Le(IntB(lo), v), Le(v, IntB(hi)))
+		} else if isFloat(t) {
+			bits := uint(64)
+			if ex.sizeOf(t) == 4 {
+				bits = 32
+			}
+			ex.varFacts[name] = And(Le(Int(0), v), Lt(v, IntB(Pow2(bits))))
 		}
 	}
 	return v
@@ -340,6 +363,13 @@ func (ex *Exec) freshArrData(elem types.Type, name string) ArrData {
 		if lo, hi, ok := intRange(elem); ok {
 			k := Var("k!r", SInt)
 			ex.varFacts[a.Name] = Forall([]*Term{k}, And(Le(IntB(lo), Select(a, k)), Le(Select(a, k), IntB(hi))), Select(a, k))
+		} else if isFloat(elem) {
+			bits := uint(64)
+			if ex.sizeOf(elem) == 4 {
+				bits = 32
+			}
+			k := Var("k!r", SInt)
+			ex.varFacts[a.Name] = Forall([]*Term{k}, And(Le(Int(0), Select(a, k)), Lt(Select(a, k), IntB(Pow2(bits)))), Select(a, k))
 		}
 		return a
 	}
@@ -584,6 +614,7 @@ func (ex *Exec) store(st *State, p *PtrV, v Val) {
 	if why, ok := st.stale[p.Obj]; ok {
 		panic(abortf("write to stale array %s (%s)", p.Obj, why))
 	}
+	st.checkWrite(p.Obj)
 	var root Val
 	if len(p.Path) > 0 {
 		root = ex.heapGet(st, p.Obj)
